@@ -37,23 +37,25 @@ theorem longestMatch_bounds (T : Tbl σ) (ed : σ) (buf : List Key) :
 theorem callHandler_queue (T : Tbl σ) (p : KP σ) (ks : List Key) :
     (callHandler T p ks).queue = p.queue ∧ (callHandler T p ks).buffer = p.buffer := by
   unfold callHandler
-  cases h : (T.handler p.ed ks) with
-  | mk ed' eff => cases eff <;> simp <;> split <;> simp
+  generalize T.handler p.ed p.arg ks = o
+  obtain ⟨ed', eff, a'⟩ := o
+  cases eff <;> simp <;> split <;> simp
 
 theorem callHandler_trace (T : Tbl σ) (p : KP σ) (ks : List Key) :
-    (callHandler T p ks).trace = p.trace ++ [.call ks ((T.handler p.ed ks).2 == .exit)] := by
+    (callHandler T p ks).trace = p.trace ++ [.call ks ((T.handler p.ed p.arg ks).eff == .exit)] := by
   unfold callHandler
-  cases h : (T.handler p.ed ks) with
-  | mk ed' eff => cases eff <;> simp <;> split <;> simp
+  generalize T.handler p.ed p.arg ks = o
+  obtain ⟨ed', eff, a'⟩ := o
+  cases eff <;> simp <;> split <;> simp
 
 /-- from a state without result: the result is set iff the handler exits; no crash -/
 theorem callHandler_live (T : Tbl σ) (p : KP σ) (ks : List Key) (hd : p.done = false) :
-    (callHandler T p ks).done = ((T.handler p.ed ks).2 == .exit) ∧
+    (callHandler T p ks).done = ((T.handler p.ed p.arg ks).eff == .exit) ∧
     (callHandler T p ks).crashed = p.crashed := by
   unfold callHandler
-  cases h : (T.handler p.ed ks) with
-  | mk ed' eff => cases eff <;> simp [hd]
-
+  generalize T.handler p.ed p.arg ks = o
+  obtain ⟨ed', eff, a'⟩ := o
+  cases eff <;> simp [hd]
 
 /-! ### bookkeeping functions -/
 def allKeys : List Disp → List Key
@@ -166,7 +168,7 @@ theorem dispatchFuel_spec (T : Tbl σ) : ∀ (fuel : Nat) (flush : Bool) (p p' :
         · simp [ht, hq.1, allKeys_append, allKeys, Disp.keys]
         · refine ⟨_, ht, ?_⟩
           simp only [hl.1]
-          cases he : ((T.handler p.ed p.buffer).2 == Eff.exit)
+          cases he : ((T.handler p.ed p.arg p.buffer).eff == Eff.exit)
           · simp only [Bool.false_eq_true, if_false]; intro d hd'; simp at hd'; subst hd'; rfl
           · simp only [if_true]; exact ⟨[], _, rfl, NoExit.nil⟩
       · split at h
@@ -279,7 +281,7 @@ theorem dispatch_ok (T : Tbl σ) (flush : Bool) (p : KP σ) (hd : p.done = false
 /-! ### `process_keys` with the key buffer -/
 
 /-- the CPR binding only reports to the renderer (key_binding/bindings/cpr.py): it never exits -/
-def CprStay (T : Tbl σ) : Prop := ∀ ed, (T.handler ed [.cpr]).2 = Eff.stay
+def CprStay (T : Tbl σ) : Prop := ∀ ed, (T.handler ed none [.cpr]).eff = Eff.stay
 
 def isCprCall (d : Disp) : Prop := d = Disp.call [.cpr] false
 
@@ -358,20 +360,15 @@ theorem processCpr_spec (T : Tbl σ) (hT : CprStay T) (p : KP σ) (h : KInv p) :
   unfold processCpr
   split
   · have hs := hT p.ed
-    have hq := callHandler_queue T p [.cpr]
-    have ht := callHandler_trace T p [.cpr]
-    have hdone : (callHandler T p [.cpr]).done = p.done ∧ (callHandler T p [.cpr]).crashed = p.crashed := by
-      unfold callHandler
-      cases hh : T.handler p.ed [.cpr] with
-      | mk ed' eff => rw [hh] at hs; simp at hs; subst hs; simp
-    rw [hs] at ht
+    generalize T.handler p.ed none [.cpr] = o at hs ⊢
+    obtain ⟨ed', eff, a'⟩ := o
+    simp only at hs; subst hs
     have hpost : ∀ d ∈ [Disp.call [Key.cpr] (Eff.stay == Eff.exit)], isCprCall d := by
       intro d hd; simp at hd; subst hd; rfl
-    refine ⟨⟨by rw [hq.2]; exact h.bufNoCpr, by rw [hq.2, hdone.1]; exact h.doneBuf,
-      by rw [hdone.2]; exact h.notCrashed, ?_⟩, hq.1, hq.2, hdone.1, ?_, ⟨_, ht, hpost⟩⟩
-    · rw [hdone.1, ht]
-      have hsh := h.shape
+    refine ⟨⟨h.bufNoCpr, h.doneBuf, h.notCrashed, ?_⟩, rfl, rfl, rfl, ?_, ⟨_, rfl, hpost⟩⟩
+    · have hsh := h.shape
       unfold TraceShape at hsh ⊢
+      simp only []
       split
       · rename_i hd; simp only [hd, if_true] at hsh
         obtain ⟨pre, ks, post, e, h1, h2⟩ := hsh
@@ -381,7 +378,7 @@ theorem processCpr_spec (T : Tbl σ) (hT : CprStay T) (p : KP σ) (h : KInv p) :
         · exact hpost d hd'
       · rename_i hd; simp only [hd, Bool.false_eq_true, if_false] at hsh
         exact hsh.append (by intro d hd'; simp at hd'; subst hd'; rfl)
-    · simp [ht, allKeys_append, allKeys, Disp.keys, dropCpr_append, dropCpr, Key.isCpr]
+    · simp [allKeys_append, allKeys, Disp.keys, dropCpr_append, dropCpr, Key.isCpr]
   · exact ⟨h, rfl, rfl, rfl, rfl, ⟨[], by simp, by simp⟩⟩
 
 /-- sending a key press (not a CPR response) or the flush marker while no result is set -/
@@ -619,19 +616,19 @@ structure Inv (T : Tbl σ) (s : St σ) (w : List Key) : Prop where
   taEmpty : s.running = true → s.typeahead = []
   results : ∀ r ∈ s.results, TraceShape r.1 true
 
-theorem kinv_fresh (q : List QK) (ed : σ) : KInv (⟨q, [], false, false, [], ed⟩ : KP σ) :=
-  ⟨rfl, fun _ => rfl, rfl, by simp [TraceShape, NoExit.nil]⟩
+theorem kinv_fresh (q : List QK) (ed : σ) : KInv (KP.fresh q ed) :=
+  ⟨rfl, fun _ => rfl, rfl, by simp [TraceShape, KP.fresh, NoExit.nil]⟩
 
 theorem inv_init (T : Tbl σ) (ed : σ) : Inv T (St.init ed) [] :=
-  ⟨rfl, kinv_fresh [] ed, by simp [St.init, procStep, notEmpty],
+  ⟨rfl, kinv_fresh [] ed, by simp [St.init, KP.fresh, procStep, notEmpty],
    fun _ => ⟨rfl, rfl, rfl, rfl⟩, fun h => by simp [St.init] at h, by intro r h; cases h⟩
 
 def evWritten : Ev → List Key
   | .write c => c
   | _ => []
 
-theorem held_fresh (q : List QK) (ed : σ) : held (⟨q, [], false, false, [], ed⟩ : KP σ) = dq q := by
-  simp [held, allKeys, dropCpr]
+theorem held_fresh (q : List QK) (ed : σ) : held (KP.fresh q ed) = dq q := by
+  simp [held, KP.fresh, allKeys, dropCpr]
 
 theorem inv_step (T : Tbl σ) (hT : CprStay T) {s : St σ} {w : List Key} (h : Inv T s w) (e : Ev) :
     Inv T (step T s e) (w ++ evWritten e) := by
@@ -646,7 +643,7 @@ theorem inv_step (T : Tbl σ) (hT : CprStay T) {s : St σ} {w : List Key} (h : I
     | false =>
       simp only [Bool.false_eq_true, if_false]
       obtain ⟨hq, hb, ht, hd⟩ := h.idle hr
-      obtain ⟨k1, k2, k3, _⟩ := processKeys_ok T hT ⟨s.typeahead, [], false, false, [], T.reset s.kp.ed⟩
+      obtain ⟨k1, k2, k3, _⟩ := processKeys_ok T hT (KP.fresh s.typeahead (T.reset s.kp.ed))
         (kinv_fresh _ _)
       refine ⟨?_, k1, k3, by simp, by simp, h.results⟩
       rw [k2, held_fresh, ← h.cons]
@@ -874,18 +871,18 @@ def dispatchFuelOld (T : Tbl σ) : Nat → Bool → KP σ → Option (KP σ)
     `app.exit()` is called a second time ("Return value already set") -/
 theorem old_code_dispatches_after_exit :
     ∃ p', dispatchFuelOld Emacs.tbl 3 false
-        ⟨[], [.abort, .accept], false, false, [], ⟨⟨['a'], 1⟩, true⟩⟩ = some p' ∧
+        ⟨[], [.abort, .accept], false, false, [], ⟨⟨['a'], 1⟩, true⟩, none, []⟩ = some p' ∧
       p'.crashed = true ∧
       p'.trace = [.call [.abort] true, .call [.accept] true] := by
   refine ⟨_, rfl, ?_, ?_⟩ <;> decide
 
 /-- the same input, current code: Enter goes back to the queue -/
 example : (dispatch Emacs.tbl false
-      ⟨[], [.abort, .accept], false, false, [], ⟨⟨['a'], 1⟩, true⟩⟩).crashed = false ∧
+      ⟨[], [.abort, .accept], false, false, [], ⟨⟨['a'], 1⟩, true⟩, none, []⟩).crashed = false ∧
     (dispatch Emacs.tbl false
-      ⟨[], [.abort, .accept], false, false, [], ⟨⟨['a'], 1⟩, true⟩⟩).queue = [some .accept] ∧
+      ⟨[], [.abort, .accept], false, false, [], ⟨⟨['a'], 1⟩, true⟩, none, []⟩).queue = [some .accept] ∧
     (dispatch Emacs.tbl false
-      ⟨[], [.abort, .accept], false, false, [], ⟨⟨['a'], 1⟩, true⟩⟩).trace = [.call [.abort] true] := by
+      ⟨[], [.abort, .accept], false, false, [], ⟨⟨['a'], 1⟩, true⟩, none, []⟩).trace = [.call [.abort] true] := by
   decide
 
 end examples
